@@ -236,6 +236,35 @@ func digitRunInputs(thorough bool, fn func([]byte)) {
 	}
 }
 
+// longNumberInputs: number tokens with one very long digit run (integer part, fraction, exponent, zeros in front of a
+// short exponent), bare and inside containers, followed by several bytes.  Length limits, chunked scanners and
+// counters that saturate are wrong only beyond some length; the lengths straddle the powers of two up to 2^17.
+func longNumberInputs(thorough bool, fn func(segs []seg)) {
+	ls := []int{100, 255, 256, 257, 1000, 1023, 1024, 1025, 4095, 4096, 4097, 5000, 16384, 65535, 65536, 65537, 131073}
+	if thorough {
+		ls = append(ls, 2047, 2048, 2049, 8191, 8192, 8193, 32768, 262145, 1000003)
+	}
+	type shape struct {
+		pre  string
+		unit string
+		post string
+	}
+	shapes := []shape{{"", "7", ""}, {"-1", "0", ""}, {"0.", "3", ""}, {"-12.", "0", "1"}, {"1e", "0", "1"}, {"2E-", "0", "3"},
+		{"1.5e+", "0", ""}, {"0.", "0", "1e-5"}, {"9", "9", ".5"}, {"1e", "1", ""}, {"1.", "25", "E+2"}}
+	wraps := []struct{ open, close string }{{"", ""}, {"", " "}, {"[", "]"}, {`{"a":`, "}"}, {"[1,", ",2]"}, {`{"a":[{"b":`, `}]}`},
+		{"", ","}, {"", "x"}, {"", "."}, {"", "e"}, {"[", ".]"}, {"[", "e]"}, {"[", "-]"}, {" ", "\n"}}
+	for _, l := range ls {
+		for _, sh := range shapes {
+			for wi, w := range wraps {
+				if wi > 5 && !thorough && l > 5000 && l != 65536 {
+					continue
+				}
+				fn([]seg{{[]byte(w.open + sh.pre), 1}, {[]byte(sh.unit), l}, {[]byte(sh.post + w.close), 1}})
+			}
+		}
+	}
+}
+
 // stringRunInputs: string tokens whose content is a run of k plain bytes followed by one "element" (a byte value, an
 // escape, a multi-byte rune, a truncated rune) and a short tail, for every k up to 40 and around the powers of two up
 // to 1024 (thorough: 4096): block-at-a-time string scanners, copiers and sanitisers are wrong only for particular run
